@@ -384,13 +384,13 @@ def Class.verdict : Class → String
   | .other k => "FAIL:" ++ k
 
 /-- Spec of a heartbeat on a behaviour built from an accepted config: no panic.  The failure key
-says whether the accepted config was valid (a new defect), invalid exactly as in the recorded
+says whether the accepted config was valid (`heartbeat_panic:valid_config`, a new defect), invalid exactly as in the recorded
 finding, or invalid otherwise. -/
 def specHbKey (accepted : Option Class) (panicked : Bool) : String :=
   if !panicked then "ok"
   else match accepted with
     | none => "ok"                                   -- config was not returned by `build`
-    | some .valid => "FAIL:heartbeat_panic"
+    | some .valid => "FAIL:heartbeat_panic:valid_config"
     | some (.known _) => "FAIL:heartbeat_panic:accepted_invalid_config"
     | some (.other _) => "FAIL:heartbeat_panic:other_invalid_config"
 
